@@ -15,9 +15,9 @@ from .common import qmap
 PID = "C09"
 FUNCTIONS = ["Scalar._DoOperation number branches / __r*__ operators", "Array._DoOperation number and ndarray branches / __r*__ operators", "_ValueGenerator",
              "barril._util.types_.IsNumber", "Quantity.CreateEmpty", "UnitDatabase.Divide/FloorDivide with the empty quantity", "Array.__array_ufunc__ = None"]
-XS = ["s_unknown_cap", "a_unknown_cap", "f_unknown_cap_np", "s_restricted", "a_restricted", "s_m", "s_degC", "s_m2", "s_per_s", "a_list", "a_tuple", "a_np", "a_np_m2", "f_list", "f_np"]
+XS = ["a_np_int", "f_np_int", "s_unknown_cap", "a_unknown_cap", "f_unknown_cap_np", "s_restricted", "a_restricted", "s_m", "s_degC", "s_m2", "s_per_s", "a_list", "a_tuple", "a_np", "a_np_m2", "f_list", "f_np"]
 OPS = ["k*x", "x*k", "x/k", "x//k", "x+k", "k+x", "x-k", "k-x", "k/x", "k//x"]
-KS = ["float_edge", "sym", "int", "np.float64", "np.float32", "np.int64", "np.uint8", "np.uint64", "np.int16", "ndarray", "ndarray0d", "sym_ndarray", "list"]
+KS = ["py_frac", "float_edge", "sym", "int", "np.float64", "np.float32", "np.int64", "np.uint8", "np.uint64", "np.int16", "ndarray", "ndarray0d", "sym_ndarray", "list"]
 BOUNDS = {
     "quick": "values and python-float k: all reals; x in %s; all ten operators in both operand orders; k kinds: symbolic python float, python int 3 and -2, "
              "numpy.float64/float32/int64 scalars and float64 ndarrays from a concrete set (with concrete amounts), symbolic object-ndarray; containers of length 0 and 2" % XS,
@@ -38,6 +38,10 @@ def items(tier, seed):
                     continue
                 if k == "list":
                     continue  # a python list is not a number/ndarray operand
+                if x in ("a_np_int", "f_np_int") and k not in ("np.float64", "int", "np.int64", "ndarray", "ndarray0d", "py_frac"):
+                    continue  # integer-dtype storage: concrete amounts, concrete k
+                if k == "py_frac" and x not in ("a_np_int", "f_np_int", "a_list", "s_m"):
+                    continue
                 if k == "float_edge" and (op not in ("x//k", "k//x", "x/k", "k/x") or x in ("s_m2", "s_per_s", "a_np_m2")):
                     continue
                 ns = [0, 2] if tier == "quick" else [0, 1, 2, 3]
@@ -64,7 +68,7 @@ def _mk(cfg, V):
     from barril.units import Array, FixedArray, Scalar
 
     name, n = cfg["x"], cfg["n"]
-    conc = cfg["k"] in ("np.float64", "np.float32", "np.int64", "np.uint8", "np.uint64", "np.int16", "ndarray", "ndarray0d", "float_edge")
+    conc = name in ("a_np_int", "f_np_int") or cfg["k"] in ("py_frac", "np.float64", "np.float32", "np.int64", "np.uint8", "np.uint64", "np.int16", "ndarray", "ndarray0d", "float_edge")
     CONC = {"x0": 1.0, "x1": 6.0, "x2": 0.3} if cfg["k"] == "float_edge" else CONCRETE
     xs = [CONC["x%d" % i] if conc else V["x%d" % i] for i in range(3)][:(n if name.startswith("a_") else max(n, 1))]
 
@@ -74,6 +78,9 @@ def _mk(cfg, V):
     if name in ("s_restricted", "a_restricted"):
         cat, unit = _restricted()
         return (Scalar(xs[0], unit, cat), xs[:1]) if name.startswith("s_") else (Array(list(xs), unit, cat), xs)
+    if name in ("a_np_int", "f_np_int"):
+        ints = [1, 6, 3][:len(xs)]
+        return (Array(numpy.array(ints), "m") if name.startswith("a_") else FixedArray(len(ints), numpy.array(ints), "m")), [float(i) for i in ints]
     if name.endswith("unknown_cap") or name == "f_unknown_cap_np":
         from barril.units import GetUnknownQuantity
 
@@ -159,6 +166,8 @@ def _k(cfg, V, n):
         return numpy.float32(1.5), [1.5] * n
     if k == "np.int64":
         return numpy.int64(-4), [-4] * n
+    if k == "py_frac":
+        return 0.25, [0.25] * n
     if k == "np.uint8":
         return numpy.uint8(3), [3] * n
     if k == "np.uint64":
